@@ -1045,7 +1045,7 @@ class Ctx:
         self.solver_time += time.time() - t
         return status, model
 
-    def require(self, cond, label, detail=None, twin=None, logic=None, sig=None):
+    def require(self, cond, label, detail=None, twin=None, logic=None, sig=None, timeout=None, fallback=None):
         """Obligation: on this path `cond` must hold for every value of the remaining symbols."""
         if self.mode == "conc":
             ok = bool(cond)
@@ -1065,7 +1065,12 @@ class Ctx:
             self.violations.append(Violation(label, _fmt(detail), vals, sig=sig))
             return False
         f = _b(cond)
-        st, m = self._solve_neg(f, logic)
+        st, m = self._solve_neg(f, logic, timeout or OBL_TIMEOUT_MS)
+        if st == "unknown" and fallback is not None:
+            # the direct query timed out: decide the goal from already discharged lemmas instead
+            if fallback() == "unsat":
+                st = "unsat"
+                self.note(f"{label}: decided from discharged lemmas (direct query inconclusive)")
         self.obligations.append((label, st, time.time() - t))
         if st == "sat":
             self.violations.append(Violation(label, _fmt(detail), self.model_values(m), sig=sig))
@@ -1125,6 +1130,19 @@ class Ctx:
             where = next((f"{os.path.basename(fr.filename)}:{fr.lineno}" for fr in reversed(tb) if "/gcmpy/" in fr.filename), "")
             self.fail(label, f"{type(e).__name__}: {e} at {where}", sig=f"{label}:{type(e).__name__}")
             raise PathAbort("failed")
+
+    def entails(self, hyps, goal, logic="QF_NRA", timeout=OBL_TIMEOUT_MS):
+        """standalone query: do the hypotheses (raw z3 formulas / SymBools) entail the goal?  'unsat' = yes"""
+        t = time.time()
+        s = z3.SolverFor(logic) if logic else z3.Solver()
+        s.set("timeout", timeout)
+        for h in hyps:
+            s.add(_b(h))
+        s.add(z3.Not(_b(goal)))
+        r = str(s.check())
+        self.solver_calls += 1
+        self.solver_time += time.time() - t
+        return r
 
     def fail(self, label, detail=None, sig=None):
         """the path itself is the violation (e.g. the library raised)"""
